@@ -466,6 +466,86 @@ func init() {
 		_ = m.String()
 		return "ok " + modIDs(m)
 	})
+	// a module built through the builder methods with one function per unnamed entity that returns a reference to it: the printed text numbers the
+	// unnamed definitions 0, 1, 2 ... in the order they are written (LLVM's rule), the parser accepts it, every reference still denotes an entity of
+	// the kind that was constructed, and printing the parsed module gives the same text
+	reg("num.apiok", func(a []string) string {
+		m := ir.NewModule()
+		base := m.NewGlobalDef("base", constant.NewInt(types.I32, 0))
+		resolver := ir.NewFunc("resolver", types.NewPointer(types.NewFunc(types.Void)))
+		var ents []constant.Constant
+		k := 0
+		for _, s := range a {
+			p := strings.Split(s, ":")
+			if p[0] == "X" {
+				continue
+			}
+			name := ""
+			if p[1] == "n" {
+				k++
+				name = fmt.Sprintf("g%d", k)
+			}
+			switch p[0] {
+			case "G":
+				ents = append(ents, m.NewGlobalDef(name, constant.NewInt(types.I32, 0)))
+			case "A":
+				ents = append(ents, m.NewAlias(name, base))
+			case "I":
+				ents = append(ents, m.NewIFunc(name, resolver))
+			case "F":
+				ents = append(ents, m.NewFunc(name, types.Void))
+			case "D":
+				f := m.NewFunc(name, types.Void)
+				f.NewBlock("").NewRet(nil)
+				ents = append(ents, f)
+			}
+		}
+		m.Funcs = append(m.Funcs, resolver)
+		resolver.Parent = m
+		kindOf := func(v interface{}) string { return fmt.Sprintf("%T", v) }
+		for i, e := range ents {
+			u := m.NewFunc(fmt.Sprintf("use%d", i), e.Type())
+			u.NewBlock("").NewRet(e)
+		}
+		text := m.String()
+		want := 0
+		for _, l := range strings.Split(text, "\n") {
+			if !strings.HasPrefix(l, "@") && !strings.HasPrefix(l, "define") && !strings.HasPrefix(l, "declare") {
+				continue
+			}
+			i := strings.Index(l, "@")
+			j := i + 1
+			for j < len(l) && l[j] >= '0' && l[j] <= '9' {
+				j++
+			}
+			if j == i+1 || (j < len(l) && l[j] != ' ' && l[j] != '(') {
+				continue
+			}
+			if l[i+1:j] != fmt.Sprint(want) {
+				return fmt.Sprintf("FAIL definition-out-of-order @%s expected @%d", l[i+1:j], want)
+			}
+			want++
+		}
+		m2, err := asm.ParseString("x.ll", text)
+		if err != nil {
+			return "FAIL parse-error"
+		}
+		for i, e := range ents {
+			for _, f := range m2.Funcs {
+				if f.Name() != fmt.Sprintf("use%d", i) {
+					continue
+				}
+				r, ok := f.Blocks[0].Term.(*ir.TermRet)
+				if !ok || kindOf(r.X) != kindOf(e) {
+					return fmt.Sprintf("FAIL reference-kind use%d %T", i, r.X)
+				}
+			}
+		}
+		if m2.String() != text {
+			return "FAIL unstable"
+		}
+		return "ok"
+	})
 	reg("num.modok", func(a []string) string {
 		m, err := asm.ParseString("x.ll", modText(a))
 		if err != nil {
